@@ -11,7 +11,8 @@ MIN_COUNTERS = dict(quick={'jacobian_entries_asserted': 5000, 'gradient_asserted
                            'forwarding_asserted': 1000, 'method:central': 200, 'method:forward': 200,
                            'method:complex': 200, 'bounds_active_cases': 200, 'gradient_of_non_contiguous_matrix_x': 40},
                     thorough={'jacobian_entries_asserted': 100000})
-RULE = ('n in 1..6, m in 1..5, affine f = A x + b and smooth nonlinear f = sin(Ax)*exp(Bx) + c (analytic Jacobian), methods '
+RULE = ('x also as list / tuple, Gradient of Fortran-ordered and strided matrices, and for affine maps with the complex method coordinates of magnitude 1e-307..1e-285, 1e20..1e120 and exact zeros. ' 
+        'n in 1..6, m in 1..5, affine f = A x + b and smooth nonlinear f = sin(Ax)*exp(Bx) + c (analytic Jacobian), methods '
         'central/forward/complex, relative step None or given, random boxes with x inside or exactly on the boundary, extra '
         'positional/keyword arguments; every x passed to f recorded. distinct non-trivial = (n, m, method, family, bounds '
         'active?, step given?) with a Jacobian that is neither symmetric nor constant along rows')
